@@ -115,6 +115,13 @@ Theorem C17_code_all_dup_spec : forall (k : nat) (s : sub),
   (exists i j, i < k /\ j < k /\ i <> j /\ s = swap i j).
 Proof. exact AllDupGenProofs.all_dup_code_spec. Qed.
 Print Assumptions C17_code_all_dup_spec.
+(* the two generated functions chained as duplicate_checker.main chains them *)
+Theorem C17_code_all_dup_then_cancel : forall (interp : nat -> list Qc -> option (list Qc)) (k : nat) (chain : list sub) (e e' : list Qc) (dup : list sub),
+  GenAllDup.get_all_dup_code k = Some dup -> k <= length e ->
+  compose Qc (Q2Qc 0) Qcopp Qcinv Qc_is_zero interp chain e = Some e' ->
+  exists c, gen_chain chain dup = Some c /\ compose Qc (Q2Qc 0) Qcopp Qcinv Qc_is_zero interp c e = Some e'.
+Proof. exact AllDupGenProofs.code_all_dup_then_cancel_Qc. Qed.
+Print Assumptions C17_code_all_dup_then_cancel.
 Example C17_ex_code_all_dup2 : GenAllDup.get_all_dup_code 2 = Some [SNeg 0; SNeg 1; SInv 0; SInv 1; swap 1 0; swap 0 1].
 Proof. vm_compute. reflexivity. Qed.
 
